@@ -86,6 +86,18 @@ func (w *World) intParamCtx(fn *ssa.Function, pi int, within map[*ssa.Function]b
 					}
 				}
 			}
+			// an argument read out of a variable captured from the enclosing function, which
+			// only that function writes (capturedctx.go): the values stored there
+			if ld, isLd := arg.(*ssa.UnOp); isLd && ld.Op == token.MUL {
+				if fv, isFv := ld.X.(*ssa.FreeVar); isFv {
+					if up := w.capturedIntSet(caller, fv, within, 0); up != nil {
+						if s != nil {
+							up = up.Intersect(s)
+						}
+						s = up
+					}
+				}
+			}
 			if s == nil {
 				return nil
 			}
